@@ -30,7 +30,7 @@ fn main() {
     };
     h.assume("messages are complete: the only newline is the terminator, faulty units contain no quote and no '#'");
     h.assume("the unit following a syntactically broken unit is addressed absolutely or is a common command (the path after a syntax error is unspecified)");
-    let cases = h.tier.pick(120_000, 3_000_000);
+    let cases = h.tier.pick(300_000, 3_000_000);
     h.check(
         "c06.fixture",
         "proptest tapes -> 2-6 complete messages over the fx fixture, each faulty with p=0.4: exactly one faulty unit (syntax error from a catalogue of 27, undefined mnemonic, query/command kind mismatch, parameter count, wrong data kind, out-of-range integer, non-boolean, handler-raised custom or standard error) at a uniform position among 1-4 units, the other units valid and path-dependent; the buffer goes through run (recording writer) and through process (random schedule, N >= need): events before the fault as predicted, exactly one error (the handler's own number and text verbatim for handler errors), faulty handler not invoked unless it is the one failing, rest of that message all-or-nothing, every later message exactly as predicted in isolation; non-trivial = fault not in the last unit followed by another message, or two faulty messages in a row",
